@@ -9,7 +9,7 @@ and each Enter is answered by exactly one new prompt. The command history keeps 
 stored lines in order, and !n, !-n and !! re-run exactly the addressed entry or report an error
 when it does not exist."
 
-`Cfg.fixed` is the code with patches/C13-01..09 applied (what the model describes and the check
+`Cfg.fixed` is the code with patches/C13-01..10 applied (what the model describes and the check
 runs against); `Cfg.legacy` the code as found, for which the counterexamples are proved.
 -/
 import TboxModel.C13.ProofsTelnet
@@ -298,7 +298,9 @@ history, `!99999999999` (uncaught `std::out_of_range`), `!-2147483648` (negation
 before the next loop pass (still with patches 01..06); and, with patches 01..07, under re-entrant use:
 `!!` re-running a shorter line while a handler feeds a key (the cursor of the typed line is still in
 force: `string::insert` throws), and a handler that leaves `!!` in the input so that it is stored:
-the next `!!` re-runs itself without end (stack overflow). -/
+the next `!!` re-runs itself without end (stack overflow); and, with patches 01..09, a telnet client's
+`exit` followed by the destruction of the services in the same loop pass, or a handler's `endSession()`
+followed by a teardown: the queued disconnect task runs on the destroyed `Telnetd` / `TcpRpc`. -/
 theorem C13_total_legacy_counterexample :
     (run Cfg.legacy {} [.openS 0, .recv [101, 120, 105, 116, 59, 101, 120, 105, 116, 13, 10], .pass]).2.contains (.bad .useAfterFree) = true ∧
     (run Cfg.legacy {} [.openS 0, .recv [33, 33, 13, 10]]).2.contains (.bad .emptyBack) = true ∧
@@ -309,7 +311,10 @@ theorem C13_total_legacy_counterexample :
     (run { Cfg.fixed with cursorReset := false } {}
       [.depth 0, .mkfunc [.feed [120]], .mount 0 1 [112], .openS 0, .recv [112, 13, 10], .depth 1, .recv [33, 33, 32, 32, 32, 32, 32, 13, 10]]).2.contains (.bad .cursor) = true ∧
     (run { Cfg.fixed with rerunGuard := false } {}
-      [.depth 1, .mkfunc [.feed [13, 10, 33, 33]], .mount 0 1 [112], .openS 0, .recv [112, 13, 10], .recv [33, 33, 13, 10]]).2.contains (.bad .recursion) = true := by
+      [.depth 1, .mkfunc [.feed [13, 10, 33, 33]], .mount 0 1 [112], .openS 0, .recv [112, 13, 10], .recv [33, 33, 13, 10]]).2.contains (.bad .recursion) = true ∧
+    (run { Cfg.fixed with cancelEnd := false } {} [.xconn 4, .xrecv 4 [101, 120, 105, 116, 13, 10], .passdown]).2.contains (.bad .useAfterFree) = true ∧
+    (run { Cfg.fixed with cancelEnd := false } {}
+      [.mkfunc [.endS], .mount 0 1 [112], .xconn 6, .xrecv 6 [112, 13, 10], .teardown]).2.contains (.bad .useAfterFree) = true := by
   decide +kernel
 
 -- non-vacuity of C13_total: the same inputs on the repaired model, with what is sent instead
@@ -381,6 +386,30 @@ theorem C13_scanner_decodes (l : List (Str × Key)) (h : ∀ p ∈ l, encOk p = 
 
 example : encOk ([27, 91, 68], .left) = true ∧ encOk ([97], .char 97) = true ∧ encOk ([13, 0], .enter) = true := by decide
 
+/-! ## C13_teardown_drops_queued -/
+
+/-- **C13_teardown_drops_queued.** What becomes of queued tasks when the host tears the services down
+(repaired code, every world): a teardown without draining drops everything that is queued — exit tasks
+of the terminal, disconnect tasks of `Telnetd`/`TcpRpc` — silently: no event at all, and every session
+slot is back to "never attached". A teardown inside the loop pass that runs the exit tasks (`passdown`)
+still carries out the disconnects that command handlers had asked for BEFORE (`closeEnding`), notes the
+`endSession` of sessions on recording connections, but none of the disconnect tasks that the exit tasks
+of this pass queue is ever run (they are cancelled with their service): no `closed` beyond the handlers'
+ones, nothing bad. -/
+theorem C13_teardown_drops_queued (w : World) :
+    step Cfg.fixed w .teardown = some ({ tel := w.tel, rpc := w.rpc, depth := w.depth }, opLine "teardown") ∧
+    (∃ evs, step Cfg.fixed w .passdown = some ({ tel := w.tel, rpc := w.rpc, depth := w.depth }, evs ++ opLine "passdown") ∧
+      (∀ e ∈ evs, e.isBad = false) ∧
+      countClosed evs = countClosed (closeEnding [4, 5, 6] w.slots).2) ∧
+    ({ tel := w.tel, rpc := w.rpc, depth := w.depth } : World).slots = List.replicate nSlots {} ∧
+    ({ tel := w.tel, rpc := w.rpc, depth := w.depth } : World).exits = [] := by
+  refine ⟨by simp [step, Cfg.fixed], ?_, rfl, rfl⟩
+  refine ⟨(closeEnding [4, 5, 6] w.slots).2 ++
+      (runExits Cfg.fixed w.exits (closeEnding [4, 5, 6] w.slots).1).2.filter (· ≠ .closed), ?_, ?_, ?_⟩
+  · simp [step, Cfg.fixed]
+  · exact noBad_append (closeEnding_noBad _ _) (noBad_filter _ (runExits_noBad _ _))
+  · simp [countClosed, List.filter_append, List.filter_filter]
+
 /-! ## C13_sessions_independent -/
 
 /-- **C13_sessions_independent.** Sessions do not disturb each other (code as found and repaired code
@@ -412,6 +441,7 @@ theorem C13_sessions_independent (cfg : Cfg) (w : World) (op : Op) (r : World ×
     simp only [step] at hs; cases hs
     exact doPass_other cfg w j ht
   | teardown => simp [touches] at ht
+  | passdown => simp [touches] at ht
   | opt n =>
     simp only [touches, beq_eq_false_iff_ne] at ht
     simp only [step] at hs; split at hs
